@@ -695,9 +695,9 @@ Open Scope nat_scope.
 Open Scope string_scope.
 
 (* ------------------------------------------------------------------ C14: the stripped text evaluates to the value *)
-(* Full statement (for every fragment expression, any spacing): NOT proved in full — it needs a printer/parser
-   round trip for eval_arith (decimal rendering included).  Kept as a Prop; below a bounded instance proved by
-   exhaustive evaluation, and the check evaluates eval_arith (strip_annotations text) inside Coq on every text
+(* Full statement (for every fragment expression, any spacing): proved in full further down (`strip_evaluates`,
+   a printer/parser round trip for eval_arith, decimal rendering included).  First a bounded instance proved by
+   exhaustive evaluation; the check also evaluates eval_arith (strip_annotations text) inside Coq on every text
    Go produced for the fragment stream (Corr14.c14_eval_ok). *)
 Definition strip_evaluates_statement : Prop :=
   forall e : aexp, prec_ok e = true -> eval_arith (aprint e) = Some (avalue e).
@@ -728,6 +728,418 @@ Proof.
 Qed.
 Lemma sample_exprs_count : (1000 <=? length (filter prec_ok sample_exprs))%nat = true.
 Proof. vm_compute. reflexivity. Qed.
+
+(* ------------------------------------------------------------------ C14: full round trip printer -> evaluator *)
+(* The full statement IS true: `strip_evaluates` below proves it for every e (no bound), by a printer -> parser
+   round trip: decimal rendering is read back exactly (uval / read_digits_uint), each level of the evaluator
+   consumes exactly the text of a sub-expression of that level (round_trip), and the fuel S (length text) is enough
+   (the measure is the length of the printed text). *)
+From Coq Require Decimal DecimalString DecimalPos.
+(* characters *)
+Lemma digit_not_ws c : is_digit c = true -> is_ws c = false.
+Proof. unfold is_digit, is_ws. cbv zeta. lia. Qed.
+Lemma digit_not_minus c : is_digit c = true -> Ascii.eqb c ch_minus = false.
+Proof. intros H. destruct (Ascii.eqb_spec c ch_minus) as [->|]; [discriminate H|reflexivity]. Qed.
+Lemma digit_not_plus c : is_digit c = true -> Ascii.eqb c ch_plus = false.
+Proof. intros H. destruct (Ascii.eqb_spec c ch_plus) as [->|]; [discriminate H|reflexivity]. Qed.
+
+Lemma skip_ws_app ws s : all_ws ws = true -> skip_ws (ws ++ s) = skip_ws s.
+Proof.
+  induction ws as [|c r IH]; cbn [all_ws append skip_ws]; [reflexivity|].
+  intros H. apply andb_true_iff in H. destruct H as [H1 H2]. rewrite H1. auto.
+Qed.
+
+(* unfolding equations (the fuel is matched inside) *)
+Section Unfold.
+  Variable pe : string -> option (Z * string).
+  Lemma parse_unary_eq f s :
+    parse_unary pe f s =
+    match skip_ws s with
+    | String c r =>
+      if Ascii.eqb c ch_minus then
+        match f with
+        | O => None
+        | S k => match parse_unary pe k r with Some (v, rest) => Some ((- v)%Z, rest) | None => None end
+        end
+      else if Ascii.eqb c ch_plus then
+        match f with O => None | S k => parse_unary pe k r end
+      else parse_atom pe s
+    | EmptyString => None
+    end.
+  Proof. destruct f; reflexivity. Qed.
+  Lemma term_rest_eq f acc s :
+    term_rest pe f acc s =
+    match skip_ws s with
+    | String c r =>
+      if Ascii.eqb c ch_star then
+        match f with
+        | O => None
+        | S k => match parse_unary pe k r with
+                 | Some (v, rest) => term_rest pe k (acc * v)%Z rest
+                 | None => None
+                 end
+        end
+      else Some (acc, s)
+    | EmptyString => Some (acc, s)
+    end.
+  Proof. destruct f; reflexivity. Qed.
+  Lemma expr_rest_eq f acc s :
+    expr_rest pe f acc s =
+    match skip_ws s with
+    | String c r =>
+      if Ascii.eqb c ch_plus then
+        match f with
+        | O => None
+        | S k => match parse_term pe k r with
+                 | Some (v, rest) => expr_rest pe k (acc + v)%Z rest
+                 | None => None
+                 end
+        end
+      else if Ascii.eqb c ch_minus then
+        match f with
+        | O => None
+        | S k => match parse_term pe k r with
+                 | Some (v, rest) => expr_rest pe k (acc - v)%Z rest
+                 | None => None
+                 end
+        end
+      else Some (acc, s)
+    | EmptyString => Some (acc, s)
+    end.
+  Proof. destruct f; reflexivity. Qed.
+
+  (* leading blanks *)
+  Lemma parse_atom_ws ws s : all_ws ws = true -> parse_atom pe (ws ++ s) = parse_atom pe s.
+  Proof. intros H. unfold parse_atom. rewrite (skip_ws_app ws s H). reflexivity. Qed.
+  Lemma parse_unary_ws f ws s : all_ws ws = true -> parse_unary pe f (ws ++ s) = parse_unary pe f s.
+  Proof.
+    intros H. rewrite (parse_unary_eq f (ws ++ s)), (parse_unary_eq f s).
+    rewrite (skip_ws_app ws s H), (parse_atom_ws ws s H). reflexivity.
+  Qed.
+  Lemma parse_term_ws f ws s : all_ws ws = true -> parse_term pe f (ws ++ s) = parse_term pe f s.
+  Proof. intros H. unfold parse_term. rewrite (parse_unary_ws f ws s H). reflexivity. Qed.
+  Lemma parse_expr_step_ws f ws s : all_ws ws = true -> parse_expr_step pe f (ws ++ s) = parse_expr_step pe f s.
+  Proof. intros H. unfold parse_expr_step. rewrite (parse_term_ws f ws s H). reflexivity. Qed.
+
+  (* continuations that end a level *)
+  Definition nodigit (s : string) : bool :=
+    match s with String c _ => negb (is_digit c) | EmptyString => true end.
+  Definition nostar (s : string) : bool :=
+    match skip_ws s with String c _ => negb (Ascii.eqb c ch_star) | EmptyString => true end.
+  Definition noadd (s : string) : bool :=
+    match skip_ws s with
+    | String c _ => negb (Ascii.eqb c ch_plus) && negb (Ascii.eqb c ch_minus)
+    | EmptyString => true
+    end.
+
+  Lemma term_rest_stop f acc s : nostar s = true -> term_rest pe f acc s = Some (acc, s).
+  Proof.
+    unfold nostar. intros H. rewrite term_rest_eq. destruct (skip_ws s) as [|c r]; [reflexivity|].
+    destruct (Ascii.eqb c ch_star); [discriminate H|reflexivity].
+  Qed.
+  Lemma expr_rest_stop f acc s : noadd s = true -> expr_rest pe f acc s = Some (acc, s).
+  Proof.
+    unfold noadd. intros H. rewrite expr_rest_eq. destruct (skip_ws s) as [|c r]; [reflexivity|].
+    destruct (Ascii.eqb c ch_plus); [discriminate H|].
+    destruct (Ascii.eqb c ch_minus); [discriminate H|reflexivity].
+  Qed.
+
+  (* one operator *)
+  Lemma term_rest_star f acc ws s :
+    all_ws ws = true ->
+    term_rest pe (S f) acc (ws ++ String "*" s) =
+    match parse_unary pe f s with
+    | Some (v, rest) => term_rest pe f (acc * v)%Z rest
+    | None => None
+    end.
+  Proof. intros H. rewrite term_rest_eq, (skip_ws_app ws _ H). reflexivity. Qed.
+  Lemma expr_rest_plus f acc ws s :
+    all_ws ws = true ->
+    expr_rest pe (S f) acc (ws ++ String "+" s) =
+    match parse_term pe f s with
+    | Some (v, rest) => expr_rest pe f (acc + v)%Z rest
+    | None => None
+    end.
+  Proof. intros H. rewrite expr_rest_eq, (skip_ws_app ws _ H). reflexivity. Qed.
+  Lemma expr_rest_minus f acc ws s :
+    all_ws ws = true ->
+    expr_rest pe (S f) acc (ws ++ String "-" s) =
+    match parse_term pe f s with
+    | Some (v, rest) => expr_rest pe f (acc - v)%Z rest
+    | None => None
+    end.
+  Proof. intros H. rewrite expr_rest_eq, (skip_ws_app ws _ H). reflexivity. Qed.
+  Lemma parse_unary_minus f ws s :
+    all_ws ws = true ->
+    parse_unary pe (S f) (String "-" (ws ++ s)) =
+    match parse_unary pe f s with Some (v, rest) => Some ((- v)%Z, rest) | None => None end.
+  Proof. intros H. rewrite parse_unary_eq. cbn [skip_ws]. change (is_ws "-") with false. cbv iota.
+    change (Ascii.eqb "-" ch_minus) with true. cbv iota. rewrite (parse_unary_ws f ws s H). reflexivity. Qed.
+  Lemma parse_unary_plus f ws s :
+    all_ws ws = true ->
+    parse_unary pe (S f) (String "+" (ws ++ s)) = parse_unary pe f s.
+  Proof. intros H. rewrite parse_unary_eq. cbn [skip_ws]. change (is_ws "+") with false. cbv iota.
+    change (Ascii.eqb "+" ch_minus) with false. change (Ascii.eqb "+" ch_plus) with true. cbv iota.
+    apply parse_unary_ws, H. Qed.
+  Lemma parse_unary_paren f s :
+    parse_unary pe f (String "(" s) =
+    match pe s with
+    | Some (v, rest) =>
+      match skip_ws rest with
+      | String c2 r2 => if Ascii.eqb c2 ch_rp then Some (v, r2) else None
+      | EmptyString => None
+      end
+    | None => None
+    end.
+  Proof. rewrite parse_unary_eq. reflexivity. Qed.
+End Unfold.
+
+(* decimal rendering *)
+Fixpoint uval (acc : Z) (d : Decimal.uint) : Z :=
+  match d with
+  | Decimal.Nil => acc
+  | Decimal.D0 l => uval (acc * 10 + 0) l
+  | Decimal.D1 l => uval (acc * 10 + 1) l
+  | Decimal.D2 l => uval (acc * 10 + 2) l
+  | Decimal.D3 l => uval (acc * 10 + 3) l
+  | Decimal.D4 l => uval (acc * 10 + 4) l
+  | Decimal.D5 l => uval (acc * 10 + 5) l
+  | Decimal.D6 l => uval (acc * 10 + 6) l
+  | Decimal.D7 l => uval (acc * 10 + 7) l
+  | Decimal.D8 l => uval (acc * 10 + 8) l
+  | Decimal.D9 l => uval (acc * 10 + 9) l
+  end%Z.
+
+Lemma uval_acc d : forall acc : positive, uval (Zpos acc) d = Zpos (Pos.of_uint_acc d acc).
+Proof.
+  induction d; intros acc; cbn [uval Pos.of_uint_acc]; try reflexivity;
+    rewrite <- IHd; f_equal; lia.
+Qed.
+Lemma uval_of_uint d : uval 0 d = Z.of_N (Pos.of_uint d).
+Proof.
+  induction d; cbn [uval Pos.of_uint]; try reflexivity; try exact IHd;
+    cbn [Z.mul Z.add Z.of_N]; apply uval_acc.
+Qed.
+Lemma uval_to_uint p : uval 0 (Pos.to_uint p) = Zpos p.
+Proof. rewrite uval_of_uint, DecimalPos.Unsigned.of_to. reflexivity. Qed.
+
+Lemma read_digits_uint d : forall acc rest, nodigit rest = true ->
+  read_digits acc (DecimalString.NilEmpty.string_of_uint d ++ rest) = (uval acc d, rest).
+Proof.
+  induction d; intros acc rest H; cbn [DecimalString.NilEmpty.string_of_uint append uval].
+  - destruct rest as [|c r]; [reflexivity|]. cbn [read_digits]. cbn [nodigit] in H.
+    destruct (is_digit c); [discriminate H|reflexivity].
+  - cbn [read_digits]. change (is_digit "0") with true. cbv iota. change (digit_val "0") with 0%Z. apply IHd, H.
+  - cbn [read_digits]. change (is_digit "1") with true. cbv iota. change (digit_val "1") with 1%Z. apply IHd, H.
+  - cbn [read_digits]. change (is_digit "2") with true. cbv iota. change (digit_val "2") with 2%Z. apply IHd, H.
+  - cbn [read_digits]. change (is_digit "3") with true. cbv iota. change (digit_val "3") with 3%Z. apply IHd, H.
+  - cbn [read_digits]. change (is_digit "4") with true. cbv iota. change (digit_val "4") with 4%Z. apply IHd, H.
+  - cbn [read_digits]. change (is_digit "5") with true. cbv iota. change (digit_val "5") with 5%Z. apply IHd, H.
+  - cbn [read_digits]. change (is_digit "6") with true. cbv iota. change (digit_val "6") with 6%Z. apply IHd, H.
+  - cbn [read_digits]. change (is_digit "7") with true. cbv iota. change (digit_val "7") with 7%Z. apply IHd, H.
+  - cbn [read_digits]. change (is_digit "8") with true. cbv iota. change (digit_val "8") with 8%Z. apply IHd, H.
+  - cbn [read_digits]. change (is_digit "9") with true. cbv iota. change (digit_val "9") with 9%Z. apply IHd, H.
+Qed.
+
+Lemma nz_uint_head d : exists c s, DecimalString.NilZero.string_of_uint d = String c s /\ is_digit c = true.
+Proof. destruct d; cbn; eexists; eexists; split; reflexivity. Qed.
+Lemma read_digits_nz d rest : nodigit rest = true ->
+  read_digits 0 (DecimalString.NilZero.string_of_uint d ++ rest) = (uval 0 d, rest).
+Proof.
+  intros H. destruct d; try (apply (read_digits_uint _ 0%Z rest H)).
+  cbn [DecimalString.NilZero.string_of_uint append read_digits uval]. change (is_digit "0") with true. cbv iota.
+  destruct rest as [|c r]; [reflexivity|]. cbn [read_digits]. cbn [nodigit] in H.
+  destruct (is_digit c); [discriminate H|reflexivity].
+Qed.
+
+Lemma parse_unary_number pe f d rest : nodigit rest = true ->
+  parse_unary pe f (DecimalString.NilZero.string_of_uint d ++ rest) = Some (uval 0 d, rest).
+Proof.
+  intros H. pose proof (read_digits_nz d rest H) as R.
+  destruct (nz_uint_head d) as (c & s & E & Hc). rewrite E in *. cbn [append] in *.
+  rewrite parse_unary_eq. cbn [skip_ws]. rewrite (digit_not_ws c Hc), (digit_not_minus c Hc), (digit_not_plus c Hc).
+  unfold parse_atom. cbn [skip_ws]. rewrite (digit_not_ws c Hc), Hc, R. reflexivity.
+Qed.
+
+Lemma show_Z_nonneg z : (0 <= z)%Z -> exists d, show_Z z = DecimalString.NilZero.string_of_uint d /\ uval 0 d = z.
+Proof.
+  destruct z as [|p|p]; intros H; [| |lia].
+  - exists (Decimal.D0 Decimal.Nil). split; reflexivity.
+  - exists (Pos.to_uint p). split; [reflexivity|apply uval_to_uint].
+Qed.
+Lemma show_Z_neg p : show_Z (Zneg p) = String "-" (DecimalString.NilZero.string_of_uint (Pos.to_uint p)).
+Proof. reflexivity. Qed.
+
+Lemma parse_unary_show_Z pe f z rest : nodigit rest = true -> 1 <= f ->
+  parse_unary pe f (show_Z z ++ rest) = Some (z, rest).
+Proof.
+  intros H Hf. destruct z as [|p|p].
+  - exact (parse_unary_number pe f (Decimal.D0 Decimal.Nil) rest H).
+  - destruct (show_Z_nonneg (Zpos p) ltac:(lia)) as (d & E & V). rewrite E. rewrite <- V. apply parse_unary_number, H.
+  - rewrite show_Z_neg. cbn [append]. destruct f as [|f]; [lia|].
+    pose proof (parse_unary_minus pe f "" (DecimalString.NilZero.string_of_uint (Pos.to_uint p) ++ rest) eq_refl) as M.
+    cbn [append] in M. rewrite M.
+    rewrite (parse_unary_number pe f _ rest H), uval_to_uint. reflexivity.
+Qed.
+Lemma show_Z_len z : 1 <= String.length (show_Z z).
+Proof.
+  destruct z as [|p|p]; [cbn; lia| |rewrite show_Z_neg; cbn [String.length]; lia].
+  destruct (show_Z_nonneg (Zpos p) ltac:(lia)) as (d & E & _). rewrite E.
+  destruct (nz_uint_head d) as (c & s & E' & _). rewrite E'. cbn [String.length]. lia.
+Qed.
+
+(* continuations *)
+Lemma ws_not_digit c : is_ws c = true -> is_digit c = false.
+Proof. intros H. destruct (is_digit c) eqn:E; [|reflexivity]. rewrite (digit_not_ws c E) in H. discriminate H. Qed.
+Lemma cont_props ws c s :
+  all_ws ws = true -> is_ws c = false -> is_digit c = false ->
+  nodigit (ws ++ String c s) = true /\
+  nostar (ws ++ String c s) = negb (Ascii.eqb c ch_star) /\
+  noadd (ws ++ String c s) = negb (Ascii.eqb c ch_plus) && negb (Ascii.eqb c ch_minus).
+Proof.
+  intros Hw Hc Hd. split; [|split].
+  - destruct ws as [|a r]; cbn [append nodigit]; [rewrite Hd; reflexivity|].
+    cbn [all_ws] in Hw. apply andb_true_iff in Hw. destruct Hw as [Ha _]. rewrite (ws_not_digit a Ha). reflexivity.
+  - unfold nostar. rewrite (skip_ws_app ws _ Hw). cbn [skip_ws]. rewrite Hc. reflexivity.
+  - unfold noadd. rewrite (skip_ws_app ws _ Hw). cbn [skip_ws]. rewrite Hc. reflexivity.
+Qed.
+
+(* operators on the spine of a product / of a sum *)
+Fixpoint stars (e : aexp) : nat := match e with ABin OMul l _ _ _ => S (stars l) | _ => 0 end.
+Fixpoint adds (e : aexp) : nat :=
+  match e with ABin OAdd l _ _ _ | ABin OSub l _ _ _ => S (adds l) | _ => 0 end.
+
+Lemma aprint_len e : 1 <= String.length (aprint e).
+Proof.
+  induction e; cbn [aprint]; rewrite ?slen_app; cbn [String.length]; try lia.
+  - unfold show_N. apply show_Z_len.
+  - apply show_Z_len.
+Qed.
+Lemma stars_lt e : stars e < String.length (aprint e).
+Proof.
+  induction e; try (cbn [stars]; apply aprint_len).
+  destruct op; try (cbn [stars]; apply aprint_len).
+  cbn [stars aprint]. rewrite !slen_app. pose proof (aprint_len e2). lia.
+Qed.
+Lemma adds_lt e : adds e < String.length (aprint e).
+Proof.
+  induction e; try (cbn [adds]; apply aprint_len).
+  destruct op; try (cbn [adds]; apply aprint_len);
+  cbn [adds aprint]; rewrite !slen_app; pose proof (aprint_len e2); lia.
+Qed.
+
+Lemma lift12 pe f s v rest :
+  parse_unary pe f s = Some (v, rest) -> parse_term pe f s = term_rest pe f v rest.
+Proof. intros H. unfold parse_term. rewrite H. reflexivity. Qed.
+Lemma lift23 pe f f' s v rest :
+  parse_term pe f s = term_rest pe f' v rest -> nostar rest = true ->
+  parse_expr_step pe f s = expr_rest pe f v rest.
+Proof. intros H Hs. unfold parse_expr_step. rewrite H, (term_rest_stop pe f' v rest Hs). reflexivity. Qed.
+Lemma from_unary pe f s v rest (P Q : Prop) :
+  parse_unary pe f s = Some (v, rest) ->
+  (P -> parse_unary pe f s = Some (v, rest)) /\
+  (Q -> parse_term pe f s = term_rest pe (f - 0) v rest) /\
+  (nostar rest = true -> parse_expr_step pe f s = expr_rest pe (f - 0) v rest).
+Proof.
+  intros H. rewrite Nat.sub_0_r. split; [auto|]. split; [intros _; apply lift12, H|].
+  intros Hs. apply (lift23 pe f f s v rest); [apply lift12, H|exact Hs].
+Qed.
+
+Lemma round_trip e : prec_ok e = true ->
+  forall k f rest, String.length (aprint e) <= k -> String.length (aprint e) <= f -> nodigit rest = true ->
+  (2 <= alevel e -> parse_unary (parse_expr k) f (aprint e ++ rest) = Some (avalue e, rest)) /\
+  (1 <= alevel e ->
+   parse_term (parse_expr k) f (aprint e ++ rest) = term_rest (parse_expr k) (f - stars e) (avalue e) rest) /\
+  (nostar rest = true ->
+   parse_expr_step (parse_expr k) f (aprint e ++ rest) = expr_rest (parse_expr k) (f - adds e) (avalue e) rest).
+Proof.
+  induction e as [n|v|ws e IH|ws e IH|ws1 e IH ws2|op l IHl ws1 ws2 r IHr]; intros Hp k f rest Hk Hf Hnd.
+  - (* ANum *)
+    cbn [aprint avalue stars adds]. apply from_unary. unfold show_N.
+    apply parse_unary_show_Z; [exact Hnd|]. pose proof (aprint_len (ANum n)). lia.
+  - (* ARoll *)
+    cbn [aprint avalue stars adds]. apply from_unary.
+    apply parse_unary_show_Z; [exact Hnd|]. pose proof (aprint_len (ARoll v)). lia.
+  - (* ANeg *)
+    cbn [prec_ok] in Hp. apply andb_true_iff in Hp. destruct Hp as [Hp He]. apply andb_true_iff in Hp. destruct Hp as [Hw Hl].
+    apply Nat.leb_le in Hl.
+    cbn [aprint] in *. rewrite !slen_app in Hk, Hf. cbn [String.length] in Hk, Hf.
+    cbn [avalue stars adds]. apply from_unary. rewrite !sapp_assoc3. cbn [append].
+    destruct f as [|f]; [lia|]. rewrite (parse_unary_minus _ f ws _ Hw).
+    destruct (IH He k f rest ltac:(lia) ltac:(lia) Hnd) as (H1 & _ & _). rewrite (H1 Hl). reflexivity.
+  - (* APos *)
+    cbn [prec_ok] in Hp. apply andb_true_iff in Hp. destruct Hp as [Hp He]. apply andb_true_iff in Hp. destruct Hp as [Hw Hl].
+    apply Nat.leb_le in Hl.
+    cbn [aprint] in *. rewrite !slen_app in Hk, Hf. cbn [String.length] in Hk, Hf.
+    cbn [avalue stars adds]. apply from_unary. rewrite !sapp_assoc3. cbn [append].
+    destruct f as [|f]; [lia|]. rewrite (parse_unary_plus _ f ws _ Hw).
+    destruct (IH He k f rest ltac:(lia) ltac:(lia) Hnd) as (H1 & _ & _). exact (H1 Hl).
+  - (* AParen *)
+    cbn [prec_ok] in Hp. apply andb_true_iff in Hp. destruct Hp as [Hp He]. apply andb_true_iff in Hp. destruct Hp as [Hw1 Hw2].
+    cbn [aprint] in *. rewrite !slen_app in Hk, Hf. cbn [String.length] in Hk, Hf.
+    cbn [avalue stars adds]. apply from_unary. rewrite !sapp_assoc3. cbn [append].
+    rewrite parse_unary_paren.
+    destruct k as [|k]; [lia|]. cbn [parse_expr]. rewrite (parse_expr_step_ws _ k ws1 _ Hw1).
+    destruct (cont_props ws2 ")" rest Hw2 eq_refl eq_refl) as (C1 & C2 & C3).
+    destruct (IH He k k (ws2 ++ String ")" rest) ltac:(lia) ltac:(lia) C1) as (_ & _ & H3).
+    rewrite (H3 C2), (expr_rest_stop _ _ _ _ C3), (skip_ws_app ws2 _ Hw2). reflexivity.
+  - (* ABin *)
+    destruct op.
+    + (* OAdd *)
+      cbn [prec_ok] in Hp. apply andb_true_iff in Hp. destruct Hp as [Hp Hr]. apply andb_true_iff in Hp. destruct Hp as [Hp Hl].
+      apply andb_true_iff in Hp. destruct Hp as [Hp Hlv]. apply andb_true_iff in Hp. destruct Hp as [Hw1 Hw2].
+      apply Nat.leb_le in Hlv.
+      cbn [aprint op_text] in *. rewrite !slen_app in Hk, Hf. cbn [String.length] in Hk, Hf.
+      cbn [alevel]. split; [intros; lia|]. split; [intros; lia|]. intros Hs.
+      cbn [avalue stars adds]. rewrite !sapp_assoc3. cbn [append].
+      destruct (cont_props ws1 "+" (ws2 ++ aprint r ++ rest) Hw1 eq_refl eq_refl) as (C1 & C2 & _).
+      destruct (IHl Hl k f _ ltac:(lia) ltac:(lia) C1) as (_ & _ & H3). rewrite (H3 C2).
+      pose proof (adds_lt l) as Ha.
+      destruct (f - adds l) as [|f'] eqn:Ef; [lia|].
+      rewrite (expr_rest_plus _ f' _ ws1 _ Hw1), (parse_term_ws _ f' ws2 _ Hw2).
+      destruct (IHr Hr k f' rest ltac:(lia) ltac:(lia) Hnd) as (_ & H2 & _).
+      rewrite (H2 Hlv), (term_rest_stop _ _ _ _ Hs). f_equal. lia.
+    + (* OSub *)
+      cbn [prec_ok] in Hp. apply andb_true_iff in Hp. destruct Hp as [Hp Hr]. apply andb_true_iff in Hp. destruct Hp as [Hp Hl].
+      apply andb_true_iff in Hp. destruct Hp as [Hp Hlv]. apply andb_true_iff in Hp. destruct Hp as [Hw1 Hw2].
+      apply Nat.leb_le in Hlv.
+      cbn [aprint op_text] in *. rewrite !slen_app in Hk, Hf. cbn [String.length] in Hk, Hf.
+      cbn [alevel]. split; [intros; lia|]. split; [intros; lia|]. intros Hs.
+      cbn [avalue stars adds]. rewrite !sapp_assoc3. cbn [append].
+      destruct (cont_props ws1 "-" (ws2 ++ aprint r ++ rest) Hw1 eq_refl eq_refl) as (C1 & C2 & _).
+      destruct (IHl Hl k f _ ltac:(lia) ltac:(lia) C1) as (_ & _ & H3). rewrite (H3 C2).
+      pose proof (adds_lt l) as Ha.
+      destruct (f - adds l) as [|f'] eqn:Ef; [lia|].
+      rewrite (expr_rest_minus _ f' _ ws1 _ Hw1), (parse_term_ws _ f' ws2 _ Hw2).
+      destruct (IHr Hr k f' rest ltac:(lia) ltac:(lia) Hnd) as (_ & H2 & _).
+      rewrite (H2 Hlv), (term_rest_stop _ _ _ _ Hs). f_equal. lia.
+    + (* OMul *)
+      cbn [prec_ok] in Hp. apply andb_true_iff in Hp. destruct Hp as [Hp Hr]. apply andb_true_iff in Hp. destruct Hp as [Hp Hl].
+      apply andb_true_iff in Hp. destruct Hp as [Hp Hlr]. apply andb_true_iff in Hp. destruct Hp as [Hp Hll].
+      apply andb_true_iff in Hp. destruct Hp as [Hw1 Hw2].
+      apply Nat.leb_le in Hlr. apply Nat.leb_le in Hll.
+      cbn [aprint op_text] in *. rewrite !slen_app in Hk, Hf. cbn [String.length] in Hk, Hf.
+      assert (T : parse_term (parse_expr k) f ((aprint l ++ ws1 ++ "*" ++ ws2 ++ aprint r) ++ rest) =
+                  term_rest (parse_expr k) (f - stars (ABin OMul l ws1 ws2 r)) (avalue (ABin OMul l ws1 ws2 r)) rest).
+      { cbn [avalue stars adds]. rewrite !sapp_assoc3. cbn [append].
+        destruct (cont_props ws1 "*" (ws2 ++ aprint r ++ rest) Hw1 eq_refl eq_refl) as (C1 & _ & _).
+        destruct (IHl Hl k f _ ltac:(lia) ltac:(lia) C1) as (_ & H2 & _). rewrite (H2 Hll).
+        pose proof (stars_lt l) as Ha.
+        destruct (f - stars l) as [|f'] eqn:Ef; [lia|].
+        rewrite (term_rest_star _ f' _ ws1 _ Hw1), (parse_unary_ws _ f' ws2 _ Hw2).
+        destruct (IHr Hr k f' rest ltac:(lia) ltac:(lia) Hnd) as (H1 & _ & _).
+        rewrite (H1 Hlr). f_equal. lia. }
+      cbn [alevel]. split; [intros; lia|]. split; [intros _; exact T|].
+      intros Hs. cbn [adds]. rewrite Nat.sub_0_r. exact (lift23 _ _ _ _ _ _ T Hs).
+Qed.
+
+Theorem strip_evaluates : strip_evaluates_statement.
+Proof.
+  intros e Hp. unfold eval_arith. cbn [parse_expr].
+  destruct (round_trip e Hp (String.length (aprint e)) (String.length (aprint e)) "" (le_n _) (le_n _) eq_refl)
+    as (_ & _ & H3).
+  rewrite (sapp_nil_r (aprint e)) in H3. rewrite (H3 eq_refl), (expr_rest_stop _ _ _ "" eq_refl). reflexivity.
+Qed.
 
 (* ------------------------------------------------------------------ non-vacuity on a real dump *)
 (* `x1 = 5` then `(2d6)d4 + 3*f - x1` (harness c14-src, seed 5): spans, offset, result and text as Go produced them *)
